@@ -143,6 +143,37 @@ class Queries(Part):
                 except Exception as e:      # noqa -- an un-projectable result is an observation
                     ev["exc"] = "unexpected result shape: %s" % type(e).__name__
             trace.append(ev)
+        self.ask(rng, res, q, key, tags)
+        if rng.random() < 0.35 and len(recs) >= 2:
+            # the recorded data changes WITHOUT changing its size (individuals moved to another generation): every answer follows
+            for r in rng.sample(recs, rng.randint(1, min(3, len(recs)))):
+                newtag = rng.choice([0, 1, 2, 3, 5, 9])
+                inds[r["k"] - 1].population_id = newtag
+                r = dict(r)
+                trace.append({"ev": "retag", "k": r["k"], "tag": newtag})
+            # ... and individuals replaced by new ones at the same position of the problem's list (a re-run into the same problem object)
+            from artap.individual import Individual
+            for r in rng.sample(recs, rng.randint(0, min(2, len(recs)))):
+                k = r["k"]
+                old = inds[k - 1]
+                new = Individual([float(rng.randint(-9, 9)), float(rng.randint(-9, 9))])
+                new.costs = [float(rng.randint(-20, 20)), float(rng.randint(-20, 20))]
+                new.costs_signed = [new.costs[0], -new.costs[1], True]
+                new.population_id = old.population_id
+                new.state = old.state
+                new.features['front_number'] = old.features.get('front_number', 2)
+                pos = next(j for j, x in enumerate(res.problem.individuals) if x is old)
+                res.problem.individuals[pos] = new
+                inds[k - 1] = new
+                key[id(new)] = k
+                trace.append({"ev": "replace", "k": k, "tag": int(new.population_id), "vec": [int(v) for v in new.vector],
+                              "costs": [int(c) for c in new.costs]})
+            tags = sorted({int(i.population_id) for i in inds})
+            self.ask(rng, res, q, key, tags)
+        return trace
+
+    @staticmethod
+    def ask(rng, res, q, key, tags):
         for tag in [-1] + tags:
             q("population", lambda: res.population(tag), lambda out: [key.get(id(i), 0) for i in out], tag=tag)
         q("table", lambda: res.table(transpose=False), ints)
@@ -172,7 +203,6 @@ class Queries(Part):
           lambda out: list(out))
         for c in (1, 2):
             q("find_optimum", lambda: res.find_optimum("c%d" % c), lambda out: key.get(id(out), 0), c=c)
-        return trace
 
     def nontrivial(self, case, trace):
         return len({r["tag"] for r in case["recs"]}) >= 2
